@@ -71,9 +71,40 @@ class FiatTranslator(limbir.Translator):
 
     def translate(self, item, imp, file):
         self.pending_asserts = []
-        # conditional_swap(a: &mut Self, b: &mut Self, ..) has no return value: outputs are a then b
-        self._mut_params = []
+        decl = self.parse_fn(item)
+        if decl.ret is None and decl.self_kind is None:
+            return self.translate_mut_params(decl, item, imp, file)
         return limbir.Translator.translate(self, item, imp, file)
+
+    def translate_mut_params(self, decl, item, imp, file):
+        """a function without receiver and return value (`conditional_swap(a: &mut Self, b: &mut Self, choice)`): the outputs
+        are its `&mut` parameters, in declaration order"""
+        fenv = self.m.file_env(file)
+        self_ty = imp.self_ty if imp is not None else None
+        env0 = limbir.Env(fenv, barrier=True, self_ty=self_ty)
+        ln = item.line
+        args, outs_v = [], []
+        for pat, ty in decl.params:
+            v = self.make_input(ty, env0, ln)
+            args.append(v)
+            if ty[0] == 'tref' and ty[2]:
+                outs_v.append(v)
+        if not outs_v:
+            raise TransErr('function has neither a return value nor &mut parameters', ln)
+        self.call_decl(decl, item, None, args, fenv, self_ty, ln)
+        flat = []
+        for v in outs_v:
+            self.flatten_value(v, flat, ln)
+        outs = []
+        for x in flat:
+            if x.ty is None or x.ty == 'usize':
+                raise TransErr('output of untyped/usize kind', ln)
+            if x.e[0] != 'v':
+                x = Int(self.b.emit_set(x.e), x.ty)
+            outs.append(x.e)
+        nin, body, outs = self.b.finalize(outs)
+        nin, body, outs = self.post_process(nin, body, outs)
+        return nin, body, outs, [x.ty for x in flat]
 
     def make_input(self, ty, env, line):
         t = ty
